@@ -109,6 +109,34 @@ theorem utf32_decode_encode (cp : Nat) (h : isScalar cp) : utf32Decode (toUTF32 
   rw [utf32_encode cp (by unfold isScalar at h; omega)]
   simp [utf32Decode, h]
 
+theorem utf32_decode_encode_list (l : List Nat) (h : ∀ cp ∈ l, isScalar cp) :
+    utf32Decode (l.flatMap toUTF32) = some l := by
+  induction l with
+  | nil => simp [utf32Decode]
+  | cons a t ih =>
+    have ha := h a (by simp)
+    rw [List.flatMap_cons, utf32_encode a (by unfold isScalar at ha; omega)]
+    simp [utf32Decode, ha, ih (fun cp hc => h cp (by simp [hc]))]
+
+/-- A whole text in any of the three encodings. -/
+theorem toUTF_decode_list (w : Nat) (l : List Nat) (h : ∀ cp ∈ l, isScalar cp) :
+    utfDecode w (l.flatMap (toUTF w)) = some l := by
+  unfold utfDecode
+  split
+  · rename_i hw; subst hw
+    have : (fun u => toUTF 1 u) = toUTF8 := by funext u; simp [toUTF]
+    show utf8Decode (l.flatMap (fun u => toUTF 1 u)) = _
+    rw [this]; exact utf8_decode_encode_list l h
+  split
+  · rename_i hw; subst hw
+    have : (fun u => toUTF 2 u) = toUTF16 := by funext u; simp [toUTF]
+    show utf16Decode (l.flatMap (fun u => toUTF 2 u)) = _
+    rw [this]; exact utf16_decode_encode_list l h
+  · rename_i h1 h2
+    have : (fun u => toUTF w u) = toUTF32 := by funext u; simp [toUTF, h1, h2]
+    show utf32Decode (l.flatMap (fun u => toUTF w u)) = _
+    rw [this]; exact utf32_decode_encode_list l h
+
 /-- All three widths at once. -/
 theorem toUTF_decode (w : Nat) (cp : Nat) (h : isScalar cp) : utfDecode w (toUTF w cp) = some [cp] := by
   unfold utfDecode toUTF
@@ -167,6 +195,11 @@ of range and the fuel `length + 1` is never exhausted. -/
 theorem unEscape_never_faults (w : Nat) (c : List Nat) (len : Nat) (st : List Nat) (hlen : len ≤ c.length) :
     unEscapeA w c len st ≠ none := by
   rw [unEscapeA_eq_B w c len st hlen]; simp
+
+/-- The returned count never exceeds the length argument. -/
+theorem unEscape_ret_le (w : Nat) (c : List Nat) (len : Nat) (st s : List Nat) (r : Nat)
+    (hlen : len ≤ c.length) (h : unEscapeA w c len st = some (s, r)) : r ≤ len :=
+  unEscapeA_ret_le w c len st s r hlen h
 
 /-- The cursor model (what the driver runs against the C++) is the suffix recursion. -/
 theorem unEscapeA_eq_suffix_model (w : Nat) (c : List Nat) (len : Nat) (st : List Nat) (hlen : len ≤ c.length) :
@@ -262,6 +295,82 @@ theorem unescape_u_decodes (w : Nat) (cp : Nat) (h : isScalar cp) (bigU up : Boo
   have := unescape_u_in_context w [] [] (by simp) (by simp) cp h bigU up
   simp only [List.nil_append, List.append_nil] at this
   exact ⟨_, _, this, toUTF_decode w cp h⟩
+
+/-- **Whole strings (as the routine accepts them).** For every sequence of accepted tokens —
+plain units, the eight two-character escapes, `\u`/`\U` + four units whose value is not a high
+surrogate, or a high surrogate escape + two ignored units + four units — followed by a quote
+and anything else: each token is replaced by its output and `|body| + 1` units are consumed.
+When no escape occurs the (empty) stream is left empty: the caller uses the input span. -/
+theorem unescape_tokens (w : Nat) (ts : List Tok) (h : ∀ t ∈ ts, t.ok = true) (rest : List Nat) :
+    unEscape (ts.flatMap Tok.src ++ 34 :: rest) w =
+      some (if ts.all Tok.isPlainTok then [] else ts.flatMap (Tok.out w), (ts.flatMap Tok.src).length + 1) := by
+  rw [unEscape_eq_B, unEscapeB_string w ts h rest]
+
+/-- The same for a body ended by the length argument. -/
+theorem unescape_tokens_eoi (w : Nat) (ts : List Tok) (h : ∀ t ∈ ts, t.ok = true) :
+    unEscape (ts.flatMap Tok.src) w =
+      some (if ts.all Tok.isPlainTok then [] else ts.flatMap (Tok.out w), (ts.flatMap Tok.src).length) := by
+  rw [unEscape_eq_B, unEscapeB_string_eoi w ts h]
+
+/-- **Any text with any number of escapes.** `items` is a text whose elements are plain units or
+scalar values to be written as RFC 8259 `\u` escapes (surrogate pairs above U+FFFF; `\u`/`\U`
+and the hex case chosen per item).  Un-escaping the written string gives the text with every
+escaped scalar replaced by its UTF-`8w` encoding. -/
+theorem unescape_text (w : Nat) (items : List Item) (h : ∀ i ∈ items, i.ok) (rest : List Nat) :
+    unEscape (items.flatMap Item.src ++ 34 :: rest) w =
+      some (if items.all Item.isUnit then [] else items.flatMap (Item.out w), (items.flatMap Item.src).length + 1) := by
+  have hok : ∀ t ∈ items.map Item.toTok, t.ok = true := by
+    intro t ht
+    obtain ⟨i, hi, rfl⟩ := List.mem_map.1 ht
+    exact (Item.toTok_ok_out w i (h i hi)).1
+  have := unescape_tokens w (items.map Item.toTok) hok rest
+  rw [flatMap_toTok_src, flatMap_toTok_out w items h, all_toTok_plain] at this
+  exact this
+
+/-- The code point an item stands for. -/
+def itemCp : Item → Nat
+  | .unit c => c
+  | .esc cp _ _ => cp
+
+/-- **End to end.** A text of ASCII plain units and escaped scalar values (at least one escape),
+written as a JSON string body, un-escaped by the routine and then read by the standard
+decoder of the target width, is the text. -/
+theorem unescape_text_decodes (w : Nat) (items : List Item) (rest : List Nat)
+    (h : ∀ i ∈ items, match i with | .unit c => isPlain c = true ∧ c < 0x80 | .esc cp _ _ => isScalar cp)
+    (hesc : items.all Item.isUnit = false) :
+    ∃ out n, unEscape (items.flatMap Item.src ++ 34 :: rest) w = some (out, n) ∧
+      utfDecode w out = some (items.map itemCp) := by
+  have hok : ∀ i ∈ items, i.ok := by
+    intro i hi; have := h i hi
+    cases i with
+    | unit c => exact this.1
+    | esc cp b u => exact this
+  refine ⟨_, _, unescape_text w items hok rest, ?_⟩
+  rw [hesc]
+  have hout : ∀ i ∈ items, Item.out w i = toUTF w (itemCp i) := by
+    intro i hi; have := h i hi
+    cases i with
+    | unit c =>
+      obtain ⟨_, hc⟩ := this
+      show [c] = toUTF w c
+      exact (toUTF_ascii w c hc).symm
+    | esc cp b u => rfl
+  have hsc : ∀ cp ∈ items.map itemCp, isScalar cp := by
+    intro cp hcp
+    obtain ⟨i, hi, rfl⟩ := List.mem_map.1 hcp
+    have := h i hi
+    cases i with
+    | unit c => unfold isScalar; simp only [itemCp]; omega
+    | esc cp b u => exact this
+  have e : items.flatMap (Item.out w) = (items.map itemCp).flatMap (toUTF w) := by
+    rw [List.flatMap_map]
+    exact flatMap_congr_mem _ _ _ hout
+  simp only [Bool.false_eq_true, if_false]
+  rw [e]
+  exact toUTF_decode_list w _ hsc
+
+example : unEscape ((([Item.unit 97, .esc 0x1F600 false true, .unit 98, .esc 0xE9 true false] : List Item).flatMap Item.src) ++ [34, 120]) 1 =
+    some ([97, 0xF0, 0x9F, 0x98, 0x80, 98, 0xC3, 0xA9], 21) := by decide
 
 /-! Non-vacuity and concrete runs of the cursor model (the closed terms are evaluated by the kernel). -/
 example : unEscape ([97] ++ jsonEscape false true 0x20AC ++ [98] ++ [34]) 1 = some ([97, 0xE2, 0x82, 0xAC, 98], 9) := by decide
